@@ -59,12 +59,14 @@ def jobs(tier, seed):
 
 def _norm_graph(att):
     """Drop stored digests of steps that are not SUCCEEDED: a reverted or pending step may keep
-    the hash of an earlier run, which is not part of the states and relations C01 speaks of."""
+    the hash of an earlier run, which is not part of the states and relations C01 speaks of. The
+    same holds for the environment variables such a step announced during that earlier run."""
     out = []
     for key, lines in att:
         if key.startswith("step:") and not any(ln.strip() == "state = SUCCEEDED" for ln in lines):
             lines = tuple(ln for ln in lines
-                          if not ln.strip().startswith(("inp_digest", "out_digest", "explained")))
+                          if not ln.strip().startswith(("inp_digest", "out_digest", "explained"))
+                          and not (ln.strip().startswith("using_env") and ln.rstrip().endswith("[dynamic]")))
         out.append((key, lines))
     return tuple(out)
 
